@@ -68,14 +68,16 @@ CONFIGS = [("none", ""), ("none+half", "half"), ("alloc", "alloc"), ("alloc+half
 
 def build_vcfg(only=None):
     """Build the feature-matrix probe once per configuration (separate target
-    directories, built concurrently).  RUSTFLAGS is cleared: these binaries are
-    the library exactly as a user of that configuration compiles it (no hooks)."""
+    directories, built concurrently).  RUSTFLAGS carries no hook cfg: these binaries
+    are the library as a user of that configuration compiles it, optimised but with
+    overflow checks and debug assertions on (what `cargo test` users run): arithmetic
+    that silently wraps in a plain release build is a panic here."""
     lock = os.path.join(VCFG, "Cargo.lock")
     if not os.path.exists(lock):
         shutil.copy(os.path.join(HARNESS, "Cargo.lock"), lock)
     procs = []
     e = dict(ENV)
-    e["RUSTFLAGS"] = ""
+    e["RUSTFLAGS"] = "-C overflow-checks=on -C debug-assertions=on"
     for name, feats in CONFIGS:
         if only and name not in only:
             continue
